@@ -329,3 +329,49 @@ func (m nftMod) NonTrivial(x *X) bool {
 }
 
 var _ = fmt.Sprint
+
+// Tamper: damage the exported genesis (see main.go: Tamperer)
+func (m nftMod) Tamper(x *X, c *Chain, raw json.RawMessage, k int) (json.RawMessage, string, bool) {
+	var gs nfttypes.GenesisState
+	c.App.AppCodec().MustUnmarshalJSON(raw, &gs)
+	if len(gs.Collections) == 0 {
+		return nil, "", false
+	}
+	withNFT := -1
+	for i, col := range gs.Collections {
+		if len(col.NFTs) > 0 {
+			withNFT = i
+		}
+	}
+	what := ""
+	switch k % 5 {
+	case 0:
+		what = "duplicate-class"
+		dup := gs.Collections[len(gs.Collections)-1]
+		dup.NFTs = nil
+		gs.Collections = append(gs.Collections, dup)
+	case 1:
+		if withNFT < 0 {
+			return nil, "", false
+		}
+		what = "duplicate-nft"
+		col := gs.Collections[withNFT]
+		col.NFTs = append(append([]nfttypes.BaseNFT{}, col.NFTs...), col.NFTs[0])
+		gs.Collections[withNFT] = col
+	case 2:
+		what = "creator-missing"
+		gs.Collections[0].Denom.Creator = ""
+	case 3:
+		if withNFT < 0 {
+			return nil, "", false
+		}
+		what = "owner-missing"
+		col := gs.Collections[withNFT]
+		col.NFTs = append([]nfttypes.BaseNFT{}, col.NFTs...)
+		col.NFTs[0].Owner = ""
+		gs.Collections[withNFT] = col
+	case 4:
+		what = "untouched"
+	}
+	return c.App.AppCodec().MustMarshalJSON(&gs), what, true
+}
